@@ -700,58 +700,53 @@ func (p *parser) parseRelationalExpression() ast.Expression {
 	left := next()
 
 	allowIn := p.scope.allowIn
-	p.scope.allowIn = true
-	defer func() {
-		p.scope.allowIn = allowIn
-	}()
 
-	switch p.token {
-	case token.LESS, token.LESS_OR_EQUAL, token.GREATER, token.GREATER_OR_EQUAL:
-		tkn := p.token
-		if p.mode&StoreComments != 0 {
-			p.comments.Unset()
-		}
-		p.next()
+	for {
+		switch p.token {
+		case token.LESS, token.LESS_OR_EQUAL, token.GREATER, token.GREATER_OR_EQUAL:
+			tkn := p.token
+			if p.mode&StoreComments != 0 {
+				p.comments.Unset()
+			}
+			p.next()
 
-		exp := &ast.BinaryExpression{
-			Operator:   tkn,
-			Left:       left,
-			Right:      p.parseRelationalExpression(),
-			Comparison: true,
-		}
-		return exp
-	case token.INSTANCEOF:
-		tkn := p.token
-		if p.mode&StoreComments != 0 {
-			p.comments.Unset()
-		}
-		p.next()
+			left = &ast.BinaryExpression{
+				Operator:   tkn,
+				Left:       left,
+				Right:      next(),
+				Comparison: true,
+			}
+		case token.INSTANCEOF:
+			tkn := p.token
+			if p.mode&StoreComments != 0 {
+				p.comments.Unset()
+			}
+			p.next()
 
-		exp := &ast.BinaryExpression{
-			Operator: tkn,
-			Left:     left,
-			Right:    p.parseRelationalExpression(),
-		}
-		return exp
-	case token.IN:
-		if !allowIn {
+			left = &ast.BinaryExpression{
+				Operator: tkn,
+				Left:     left,
+				Right:    next(),
+			}
+		case token.IN:
+			if !allowIn {
+				return left
+			}
+			tkn := p.token
+			if p.mode&StoreComments != 0 {
+				p.comments.Unset()
+			}
+			p.next()
+
+			left = &ast.BinaryExpression{
+				Operator: tkn,
+				Left:     left,
+				Right:    next(),
+			}
+		default:
 			return left
 		}
-		tkn := p.token
-		if p.mode&StoreComments != 0 {
-			p.comments.Unset()
-		}
-		p.next()
-
-		exp := &ast.BinaryExpression{
-			Operator: tkn,
-			Left:     left,
-			Right:    p.parseRelationalExpression(),
-		}
-		return exp
 	}
-
-	return left
 }
 
 func (p *parser) parseEqualityExpression() ast.Expression {
